@@ -159,4 +159,18 @@ theorem migration_paths_are_the_modelled_ones :
   ⟨MW.Interface.staking_migrate_eq, by rw [MW.Interface.staking_migrate_eq]; exact MW.Interface.migrate_tag_pinned,
    MW.Interface.treasury_rest_eq.2.2.1⟩
 
+/-- what a migration has to produce: the stored layouts (field names, types, serde attributes of `Config`, `State`,
+`Batch`, `IBCTransfer`, `IbcWaitingForReply`, `UnstakeRequest`, the status enums) and the storage keys of the current
+version as the source declares them (tables regenerated from /repo on every run) are the ones the migration model
+writes; a storage item added to the source is state neither the migration model nor the contract model has -/
+theorem stored_layout_is_the_modelled_one :
+    MW.Generated.Interface.staking_storage_keys = MW.Interface.model_staking_storage_keys
+    ∧ MW.Generated.Interface.staking_stored_IBCTransfer = MW.Interface.model_staking_stored_IBCTransfer
+    ∧ MW.Generated.Interface.staking_stored_IbcWaitingForReply = MW.Interface.model_staking_stored_IbcWaitingForReply
+    ∧ MW.Generated.Interface.staking_stored_Config = MW.Interface.model_staking_stored_Config
+    ∧ MW.Generated.Interface.staking_stored_Batch = MW.Interface.model_staking_stored_Batch
+    ∧ MW.Generated.Interface.treasury_storage_keys = MW.Interface.model_treasury_storage_keys :=
+  ⟨MW.Interface.staking_storage_eq, MW.Interface.staking_layout_eq.2.2.2.2.2.2.2.1, MW.Interface.staking_layout_eq.2.2.2.2.2.2.1,
+   MW.Interface.staking_layout_eq.1, MW.Interface.staking_layout_eq.2.2.2.2.2.2.2.2.2.1, MW.Interface.treasury_storage_eq⟩
+
 end MW.Props.C18
